@@ -5,7 +5,9 @@ import (
 	crand "crypto/rand"
 	"crypto/rsa"
 
+	"github.com/cloudflare/circl/group"
 	"github.com/cloudflare/circl/oprf"
+	"github.com/cloudflare/circl/zk/dleq"
 	"github.com/cloudflare/pat-go/quicwire"
 	"github.com/cloudflare/pat-go/tokens"
 	"github.com/cloudflare/pat-go/tokens/type1"
@@ -94,6 +96,27 @@ func c02Type1(c *h.Ctx, n int) {
 				st3 = h.StNone
 			}
 			c.Case("type1:model-front-end", len(b) > 0, "fe_fin1", [][]byte{st3, b}, [][]byte{h.StOK})
+			// exact run of the model with the primitives' answers recomputed from circl directly
+			eltOK, proofOK, outOpt := false, false, []byte{0}
+			if len(b) >= 49 {
+				e := group.P384.NewElement()
+				eltOK = e.UnmarshalBinary(b[:49]) == nil
+				p := new(dleq.Proof)
+				proofOK = p.UnmarshalBinary(group.P384, b[49:]) == nil
+				if eltOK && proofOK {
+					h.Protect(func() {
+						outs, err := oprf.NewVerifiableClient(oprf.SuiteP384, iss.TokenKey()).Finalize(st.ForTestsOnlyVerifier(), &oprf.Evaluation{Elements: []oprf.Evaluated{e}, Proof: p})
+						if err == nil && len(outs) == 1 {
+							outOpt = cat([]byte{1}, outs[0])
+						}
+					})
+				}
+			}
+			implOuts := [][]byte{st3}
+			if !o.pan && o.err == nil {
+				implOuts = append(implOuts, o.toks[0].Marshal())
+			}
+			c.Case("type1:model-exact", true, "fin1_full", [][]byte{input, b, flagB(eltOK), flagB(proofOK), outOpt}, implOuts)
 			return o
 		}
 		det := func(k string, v any) map[string]any { return map[string]any{"type": 1, k: v} }
@@ -182,6 +205,26 @@ func c02Type2(c *h.Ctx, keys []*rsa.PrivateKey, flips int) {
 					o.toks = []tokens.Token{t}
 				}
 			})
+			sigOpt, pss := []byte{0}, false
+			h.Protect(func() {
+				if sig, err := st.ForTestsOnlyVerifier().Finalize(b); err == nil {
+					sigOpt = cat([]byte{1}, sig)
+					if len(sig) >= 256 {
+						pss = pssOK(&key.PublicKey, input, sig[:256])
+					}
+				}
+			})
+			st3 := h.StOK
+			if o.pan {
+				st3 = h.StPanic
+			} else if o.err != nil {
+				st3 = h.StNone
+			}
+			implOuts := [][]byte{st3}
+			if !o.pan && o.err == nil {
+				implOuts = append(implOuts, o.toks[0].Marshal())
+			}
+			c.Case("type2:model-exact", true, "fin2_full", [][]byte{input, b, sigOpt, flagB(pss)}, implOuts)
 			return o
 		}
 		bits := key.N.BitLen()
@@ -330,6 +373,50 @@ func c02Type5(c *h.Ctx, sizes []int, flipAll bool) {
 			if o.err != nil {
 				o.toks = nil
 			}
+			// exact run of the model with the primitives' answers recomputed from circl directly
+			eltsOK, proofOK, outOpt := false, false, []byte{0}
+			if l, off := quicwire.ConsumeVarint(b); off > 0 && l <= uint64(len(b)-off) && l%32 == 0 && int(l/32) == n {
+				body := b[off : off+int(l)]
+				rest := b[off+int(l):]
+				var es []oprf.Evaluated
+				eltsOK = true
+				for j := 0; j < n; j++ {
+					e := group.Ristretto255.NewElement()
+					if e.UnmarshalBinary(body[32*j:32*j+32]) != nil {
+						eltsOK = false
+					}
+					es = append(es, e)
+				}
+				if len(rest) >= 64 {
+					p := new(dleq.Proof)
+					if p.UnmarshalBinary(group.Ristretto255, rest[:64]) == nil {
+						if canon, err := p.MarshalBinary(); err == nil && bytes.Equal(canon, rest[:64]) {
+							proofOK = true
+						}
+					}
+					if eltsOK && proofOK {
+						h.Protect(func() {
+							outs, err := oprf.NewVerifiableClient(oprf.SuiteRistretto255, iss.TokenKey()).Finalize(st.ForTestsOnlyVerifier(), &oprf.Evaluation{Elements: es, Proof: p})
+							if err == nil && len(outs) == n {
+								outOpt = cat(append([][]byte{{1}}, outs...)...)
+							}
+						})
+					}
+				}
+			}
+			var inputs [][]byte
+			for j := 0; j < n; j++ {
+				inputs = append(inputs, cat(u16b(5), nonces[j], sha256Bytes(chal), kid))
+			}
+			implOuts := [][]byte{st3}
+			if !o.pan && o.err == nil {
+				var all []byte
+				for _, t := range o.toks {
+					all = append(all, t.Marshal()...)
+				}
+				implOuts = append(implOuts, all)
+			}
+			c.Case("type5:model-exact", true, "fin5_full", append([][]byte{h.U64(uint64(n)), b, flagB(eltsOK), flagB(proofOK), outOpt}, inputs...), implOuts)
 			return o
 		}
 		det := func(k string, v any) map[string]any { return map[string]any{"type": 5, "batch": n, k: v} }
